@@ -38,6 +38,9 @@ def one(e, base):
     elif e.get('generator') == 'swap-rel':
         from swap_rel import main as swaprel
         swaprel(d)
+    elif e.get('generator') == 'py-swap-cmp':
+        from py_swap_cmp import main as pyswap
+        pyswap(d)
     elif e.get('generator') == 'insert-noops':
         from insert_noops import main as noops
         noops(d)
